@@ -1,6 +1,7 @@
 package main
 
 import (
+	"bytes"
 	"encoding/json"
 	"fmt"
 
@@ -40,6 +41,30 @@ func refTypeDecode(v uint16) (method uint16, class uint8) {
 	class = uint8(v>>4&1) | uint8(v>>8&1)<<1
 	return
 }
+
+// c19Bodies are attribute sections a message may carry next to its type: none of them has a say in the type.
+var c19Bodies = func() [][]byte {
+	attr := func(t uint16, v []byte) []byte {
+		b := []byte{byte(t >> 8), byte(t), byte(len(v) >> 8), byte(len(v))}
+		b = append(b, v...)
+		for len(b)%4 != 0 {
+			b = append(b, 0)
+		}
+		return b
+	}
+	xor4 := []byte{0, 1, 0x12, 0x34, 1, 2, 3, 4}
+	return [][]byte{
+		attr(0x8020, xor4), // XOR-MAPPED-ADDRESS under its pre-RFC code point
+		attr(0x0020, xor4),
+		attr(0x8022, []byte("c19")),
+		attr(0x0009, []byte{0, 0, 4, 1, 'n', 'o'}),
+		attr(0x0008, make([]byte, 20)),
+		attr(0x8028, []byte{1, 2, 3, 4}),
+		attr(0x7FFF, nil),
+		append(attr(0x8020, xor4), attr(0x8028, []byte{1, 2, 3, 4})...),
+		append(attr(0x0006, []byte("user")), attr(0x8020, xor4)...),
+	}
+}()
 
 type c19Case struct {
 	Kind   string `json:"kind"` // enc | dec | wire
@@ -177,6 +202,50 @@ func c19Check1(k c19Case) (string, string) {
 		}
 		if uint16(m.Type.Method) != wm || uint8(m.Type.Class) != wc {
 			return "dec-wire", fmt.Sprintf("Decode type word %#04x gave %v", k.V, m.Type)
+		}
+		// the type of a message is its type word whatever else the message carries, through every decoding entry point,
+		// into a fresh Message and into one that was used before (for the same bytes, for a sibling with another type)
+		bad := func(mm *stun.Message) bool { return uint16(mm.Type.Method) != wm || uint8(mm.Type.Class) != wc }
+		for bi, body := range c19Bodies {
+			data := make([]byte, 20+len(body))
+			copy(data, raw)
+			data[2], data[3] = byte(len(body)>>8), byte(len(body))
+			copy(data[8:20], "c19-tid-0123")
+			copy(data[20:], body)
+			sibling := append([]byte(nil), data...)
+			sibling[0], sibling[1] = byte(^k.V>>8)&0x3F, byte(^k.V)
+			junk := stun.MessageType{Method: stun.Method(^wm & 0xFFF), Class: stun.MessageClass(^wc & 3)}
+			for ei, entry := range []func(mm *stun.Message, d []byte) error{
+				func(mm *stun.Message, d []byte) error { mm.Raw = append(mm.Raw[:0], d...); return mm.Decode() },
+				func(mm *stun.Message, d []byte) error { return stun.Decode(d, mm) },
+				func(mm *stun.Message, d []byte) error { _, err := mm.Write(d); return err },
+				func(mm *stun.Message, d []byte) error { return mm.UnmarshalBinary(d) },
+				func(mm *stun.Message, d []byte) error { _, err := mm.ReadFrom(bytes.NewReader(d)); return err },
+			} {
+				name := []string{"Message.Decode", "Decode(data,m)", "Message.Write", "UnmarshalBinary", "ReadFrom"}[ei]
+				mm := new(stun.Message)
+				if ei == 4 {
+					mm.Raw = make([]byte, 0, 256)
+				}
+				if err := entry(mm, data); err != nil {
+					return "dec-wire", fmt.Sprintf("%s of a message with type word %#04x and attributes #%d failed: %v", name, k.V, bi, err)
+				}
+				if bad(mm) {
+					return "dec-wire-with-attributes", fmt.Sprintf("%s of a message with type word %#04x and attribute set #%d (%x) gave type %v, figure 3 gives (%#x,%d)", name, k.V, bi, clip(body), mm.Type, wm, wc)
+				}
+				// the same bytes again into the same Message, after the caller changed the Type field
+				mm.Type = junk
+				if err := entry(mm, data); err != nil || bad(mm) {
+					return "dec-wire-reused-message", fmt.Sprintf("%s of the same bytes (type word %#04x, attribute set #%d) into the same Message, whose Type field the caller had set to %v in between: err=%v type=%v, want (%#x,%d)", name, k.V, bi, junk, err, mm.Type, wm, wc)
+				}
+				// a sibling (other type word, everything else equal), then the message again
+				if err := entry(mm, sibling); err != nil {
+					return "dec-wire", fmt.Sprintf("%s of the sibling of %#04x failed: %v", name, k.V, err)
+				}
+				if err := entry(mm, data); err != nil || bad(mm) {
+					return "dec-wire-reused-message", fmt.Sprintf("%s of type word %#04x (attribute set #%d) into a Message that held its sibling with type word %#04x: err=%v type=%v, want (%#x,%d)", name, k.V, bi, uint16(sibling[0])<<8|uint16(sibling[1]), err, mm.Type, wm, wc)
+				}
+			}
 		}
 	}
 	return "", ""
